@@ -1,0 +1,18 @@
+//go:build verif
+// +build verif
+
+package vbft
+
+// VerifCommitConsensusEmpty is VerifCommitConsensus with a per-message "commit for the empty block" flag, so that a
+// harness can drive getCommitConsensus with any mix of empty / non-empty commits and any configured C.
+func VerifCommitConsensusEmpty(committers, proposers []uint32, endorsers [][]uint32, forEmpty []bool, C, N int) (uint32, bool) {
+	msgs := make([]*blockCommitMsg, 0, len(committers))
+	for i := range committers {
+		es := make(map[uint32][]byte)
+		for _, e := range endorsers[i] {
+			es[e] = []byte{1}
+		}
+		msgs = append(msgs, &blockCommitMsg{Committer: committers[i], BlockProposer: proposers[i], CommitForEmpty: forEmpty[i], EndorsersSig: es})
+	}
+	return getCommitConsensus(msgs, C, N)
+}
